@@ -1,6 +1,7 @@
 package main
 
 import (
+	"errors"
 	"context"
 	"encoding/hex"
 	"encoding/json"
@@ -35,6 +36,18 @@ type c10StateCase struct {
 	Nonce   int    `json:"nonce_len,omitempty"`
 	Cipher  int    `json:"cipher,omitempty"`
 	KeyKind string `json:"key_kind,omitempty"`
+	// login-caps: which capability types the final reply carries (bit 0:
+	// request, 1: response, 2: security), mask length and content
+	CapTypes int    `json:"capability_types_present,omitempty"`
+	MaskLen  int    `json:"mask_length,omitempty"`
+	MaskKind string `json:"mask_kind,omitempty"` // zero | bits | ones
+	Flow     string `json:"flow,omitempty"`
+	// after-parse-error: good packages + a malformed one in packet 1, then
+	// short packets
+	Good     int    `json:"good_packages_before,omitempty"`
+	Bad      string `json:"malformed,omitempty"`
+	P1EOM    bool   `json:"first_packet_eom,omitempty"`
+	ShortLen []int  `json:"following_packet_body_lengths,omitempty"`
 }
 
 // c10Guarded runs f under the panic monitor with a watchdog on time and
@@ -102,6 +115,153 @@ func c10StateRun(c *Ctx, cs c10StateCase) {
 		case !fin:
 			r.Violate("hang/mid-message-packet-size-change", fmt.Sprintf("the client had %d bytes queued when the server announced packet size %d; continuing the message did not return within 20 s", cs.Fill+6, cs.NewSize), cs)
 		}
+	case "after-parse-error":
+		// what a parse error leaves behind for the packets that follow
+		k, err := newKit(256, 0)
+		if err != nil {
+			r.Inconclusive("setup: %v", err)
+			return
+		}
+		defer k.teardown()
+		var body []byte
+		for i := 0; i < cs.Good; i++ {
+			body = append(body, srv.Done(srv.TokDone, srv.DoneMore|srv.DoneCount, 0, int32(i))...)
+		}
+		switch cs.Bad {
+		case "language-length-0":
+			body = append(body, 0x21, 0, 0, 0, 0)
+		case "unknown-token":
+			body = append(body, 0x01, 0x02, 0x03, 0x04)
+		case "row-without-format":
+			body = append(body, srv.TokRow, 1, 2, 3, 4, 5, 6, 7, 8)
+		case "eed-length-beyond":
+			body = append(body, 0xE5, 0xff, 0x00, 1, 2, 3)
+		case "envchange-bad-packsize":
+			body = append(body, srv.EnvChange(srv.EnvMember{Type: 4, New: "4", Old: "512"})...)
+		}
+		st := byte(0)
+		if cs.P1EOM {
+			st = xport.EOM
+		}
+		k.tr.Feed(xport.Packet(byte(tds.TDS_BUF_RESPONSE), st, 0, body))
+		// the following packets carry DONE packages cut into the given lengths
+		var rest []byte
+		for i := 0; i < 40; i++ {
+			rest = append(rest, srv.Done(srv.TokDone, srv.DoneMore|srv.DoneCount, 0, int32(100+i))...)
+		}
+		rest = append(rest, srv.Done(srv.TokDone, 0, 0, 0)...)
+		for _, n := range cs.ShortLen {
+			if n > len(rest) {
+				n = len(rest)
+			}
+			k.tr.Feed(xport.Packet(byte(tds.TDS_BUF_RESPONSE), 0, 0, rest[:n]))
+			rest = rest[n:]
+		}
+		k.tr.Feed(xport.Packet(byte(tds.TDS_BUF_RESPONSE), xport.EOM, 0, rest))
+		// a consumer keeps taking packages and errors so that the reader
+		// is never held up by a full queue
+		stop := make(chan struct{})
+		done := make(chan struct{})
+		go func() {
+			defer close(done)
+			for {
+				select {
+				case <-stop:
+					return
+				default:
+				}
+				if _, err := k.ch.NextPackage(k.ctx, false); err != nil && !errors.Is(err, tds.ErrNoPackageReady) {
+					r.Count("state_errors_surfaced", 1)
+				}
+			}
+		}()
+		idle := awaitIdle(k.tr, 20*time.Second)
+		close(stop)
+		<-done
+		r.Distinct(string(b))
+		if !idle {
+			if g := rt.FindG(rt.Goroutines(), k.tr.ReaderGID()); g == nil {
+				r.Violate("reader-gone/after-parse-error", "the reader goroutine ended while packets were still arriving (no panic was reported, the connection is dead)", cs)
+			} else {
+				r.Inconclusive("reader not idle 20 s after the packets following a parse error (state %s)", g.State)
+			}
+			return
+		}
+		r.SetAdd("state_outcomes", "after-parse-error:"+cs.Bad)
+	case "login-caps":
+		// the capability reply is stored by Login and queried by the
+		// driver afterwards (and written back by the next login)
+		var es []srv.CapEntry
+		for t := 1; t <= 3; t++ {
+			if cs.CapTypes&(1<<uint(t-1)) == 0 {
+				continue
+			}
+			m := make([]byte, cs.MaskLen)
+			switch cs.MaskKind {
+			case "bits":
+				if t == 1 {
+					m = srv.MaskWith(cs.MaskLen, lpReqBits...)
+				} else {
+					m = srv.MaskWith(cs.MaskLen, lpRespBits...)
+				}
+			case "ones":
+				for i := range m {
+					m[i] = 0xff
+				}
+			}
+			es = append(es, srv.CapEntry{Type: byte(t), Mask: m})
+		}
+		capItem := lpItem{Kind: "capability", Caps: "c10", B: srv.Capability(es...)}
+		var script lpScript
+		if cs.Flow == "encrypted" {
+			key := lpGetKey(1024)
+			types := []int{srv.TInt4, srv.TLongBinary, srv.TLongBinary}
+			script = lpScript{Flow: "encrypted", Rounds: [][]lpItem{
+				{lpLoginAck(srv.LogNegotiate), lpMsg(1, lpMsgEncrypt4), lpParamFmt(types...), lpParams(types, 1, "valid", key.pem, []byte("0123456789abcdef0123456789abcdef")), lpDone(0)},
+				{lpLoginAck(srv.LogSucceed), capItem, lpDone(0)},
+			}}
+		} else {
+			script = lpScript{Flow: "plain", Rounds: [][]lpItem{{lpLoginAck(srv.LogSucceed), capItem, lpDone(0)}}}
+		}
+		res := lpRun(c.Seed, script, lpConfig("sa", "secret-Pw1", cs.Flow == "encrypted"), lpOptions{CutSeed: string(b), CutClass: "one-packet", Timeout: 500 * time.Millisecond})
+		r.Distinct("login-caps|" + string(b))
+		if res.panicked != nil {
+			if res.kit != nil {
+				res.kit.teardown()
+			}
+			r.Violate("panic/"+res.panicked.Frame+"/login-reply", fmt.Sprintf("Login panicked on a final reply whose capability package carries the types %03b with %d-byte %s masks: %s", cs.CapTypes, cs.MaskLen, cs.MaskKind, res.panicked.Value), cs)
+			return
+		}
+		if res.kit == nil {
+			return
+		}
+		defer res.kit.teardown()
+		r.SetAdd("state_outcomes", fmt.Sprintf("login-caps:%03b:%v", cs.CapTypes, res.err != nil))
+		caps := res.kit.conn.Caps
+		if caps == nil {
+			return
+		}
+		pi := rt.Catch(func() {
+			for i := 0; i <= 107; i++ {
+				caps.HasRequestCapability(tds.RequestCapability(i))
+			}
+			for i := 0; i <= 50; i++ {
+				caps.HasResponseCapability(tds.ResponseCapability(i))
+			}
+			for i := 0; i <= 8; i++ {
+				caps.HasSecurityCapability(tds.SecurityCapability(i))
+			}
+			for t := 1; t <= 3; t++ { // the three capability types there are
+				caps.HasCapability(tds.CapabilityType(t), 1)
+			}
+			_ = caps.String()
+			_ = caps.SetRequestCapability(tds.TDS_REQ_LANG, true)
+			_ = caps.SetResponseCapability(tds.TDS_RES_NOEED, false)
+			_ = caps.WriteTo(&flatCh{})
+		})
+		if pi != nil {
+			r.Violate("panic/"+pi.Frame+"/capabilities-after-login", fmt.Sprintf("after a login (err=%v) whose final reply carried a capability package with the types %03b (%d-byte %s masks), querying / changing / writing the connection's capabilities panicked: %s", res.err, cs.CapTypes, cs.MaskLen, cs.MaskKind, pi.Value), cs)
+		}
 	case "login":
 		key, _ := hex.DecodeString(cs.KeyHex)
 		types := []int{srv.TInt4, srv.TLongBinary, srv.TLongBinary}
@@ -136,6 +296,24 @@ func runC10State(c *Ctx) {
 		for _, ns := range []int{9, 16, 256, 300, 511, 513, 1024, 65535} {
 			for _, more := range []int{1, 200, 700, 2000} {
 				cases = append(cases, c10StateCase{Leg: "state", Kind: "midmsg", Fill: fill, NewSize: ns, More: more})
+			}
+		}
+	}
+	for _, good := range []int{1, 3, 20} {
+		for _, bad := range []string{"language-length-0", "unknown-token", "row-without-format", "eed-length-beyond", "envchange-bad-packsize"} {
+			for _, eom := range []bool{false, true} {
+				for _, sl := range [][]int{{1}, {2}, {5}, {9}, {1, 1}, {3, 40}, {8, 1, 1}, {}} {
+					cases = append(cases, c10StateCase{Leg: "state", Kind: "after-parse-error", Good: good, Bad: bad, P1EOM: eom, ShortLen: sl})
+				}
+			}
+		}
+	}
+	for _, flow := range []string{"plain", "encrypted"} {
+		for types := 0; types < 8; types++ {
+			for _, ml := range []int{0, 1, 14, 20} {
+				for _, mk := range []string{"zero", "bits", "ones"} {
+					cases = append(cases, c10StateCase{Leg: "state", Kind: "login-caps", Flow: flow, CapTypes: types, MaskLen: ml, MaskKind: mk})
+				}
 			}
 		}
 	}
